@@ -71,6 +71,31 @@ def check(ctx):
                 hits.append("%s -> %s" % (F.fns[fid].path, c.path))
     ctx.require(not hits and len(reach) > 5, "R-REACH", "seen:no-stream-access", "no stream accessor reachable from handle_canon_executed or the epilogs (%d fns)" % len(reach),
                 "a canon already present in the data can now read or write live streams: %s" % hits[:3], sample={"reachable_functions": len(reach)})
+    # the rebuilt canon stream is the stored aggregate's element list, element by element: a 1:1 map over
+    # `aggregate.values`, no dropping / reordering adaptor and no in-place reshaping of the CID list
+    ctx.clause("R-FLOW seen canon rebuilt 1:1 from the stored aggregate's element list (no filter/dedup/sort/truncate between the store and CanonStream::new)")
+    hcp = Prov(hce)
+    news = hce.calls_to("CanonStream::new")
+    if ctx.require(len(news) == 1, "R-FLOW", "seen:rebuild-anchor", "one CanonStream::new in handle_canon_executed", "handle_canon_executed builds %d canon streams" % len(news)):
+        v = hcp.operand(news[0].args[0])
+        names = [x[1] for x in walk(v) if x[0] == "call"]
+        src_ok = lib.mentions_call(v, "get_canon_result_by_cid") and lib.mentions_field(v, "values")
+        shape_ok = any(n.endswith("Iterator::map") for n in names) and any(n.endswith("Iterator::collect") for n in names)
+        DROP = ("::filter", "::skip", "::take", "::step_by", "::take_while", "::skip_while", "::filter_map", "::rev", "::dedup", "::flat_map", "::chain", "::zip", "::peekable", "::fuse")
+        drops = [n for n in names if n.endswith(DROP)]
+        reshapes = []
+        for c_ in hce.calls:
+            if c_.atys and c_.atys[0].startswith("&mut") and ("Vec<" in c_.atys[0] or c_.atys[0].startswith("&mut [")) and not lib.is_transparent(c_.path):
+                r = hcp.operand(c_.args[0])
+                if lib.mentions_field(r, "values") or lib.mentions_call(r, "get_canon_result_by_cid"):
+                    reshapes.append(c_.path.split("::")[-1])
+        ctx.require(src_ok and shape_ok and not drops and not reshapes, "R-FLOW", "seen:rebuild-1to1",
+                    "values := aggregate.values.iter().map(get_canon_value_by_cid).collect()", "the canon stream rebuilt from stored data is `%s` (dropping adaptors %s, in-place list operations %s): it no longer carries exactly the stored elements in the stored order"
+                    % (show(v)[:200], drops, reshapes), sample={"values": show(v)[:200]})
+        cl = [x for x in walk(v) if x[0] == "closure"]
+        okc = len(cl) == 1 and any(c_.path.endswith("get_canon_value_by_cid") for f_ in F.fns.values() if f_.id == cl[0][1] for c_ in f_.calls)
+        ctx.require(okc, "R-FLOW", "seen:rebuild-element", "each element resolved by get_canon_value_by_cid", "the per-element mapping of the rebuilt canon stream changed")
+
     # handle_seen_canon dispatch
     hs = F.fn("canon_utils::handle_seen_canon")
     rows = {}
